@@ -23,7 +23,8 @@ from vcheck import sexp, parse_sexp
 # ------------------------------------------------------------------------------------------------
 # field catalogue
 
-FIELD_ORDER = ["cat", "num", "sid", "tag", "txt", "uk", "un", "vt", "x1", "x2"]   # sorted names
+FIELD_ORDER = ["cat", "num", "pc", "sid", "tag", "txt", "uk", "un", "vt", "x1", "x2", "y_dyn"]   # sorted names
+DYNAMIC = {"y_dyn": "*_dyn"}          # concrete name -> the glob it is declared under
 FID = dict((n, i) for i, n in enumerate(FIELD_ORDER))
 WORDS = ["aa", "bb", "cc", "dd", "ee", "ff", "gg"]
 CATS = ["red", "green", "blue", ""]
@@ -53,6 +54,13 @@ def make_field(name):
         return fields.KEYWORD(stored=True, scorable=True)
     if name == "x2":
         return fields.TEXT(analyzer=space, stored=True, phrase=False)
+    if name == "pc":
+        # a column and nothing else: no postings, no stored value
+        from whoosh import columns
+        return fields.COLUMN(columns.NumericColumn("i"))
+    if name == "y_dyn":
+        # declared as the glob "*_dyn": indexed, not stored, with lengths, a vector and a column
+        return fields.TEXT(analyzer=space, stored=False, vector=True, sortable=True)
     raise KeyError(name)
 
 
@@ -60,8 +68,17 @@ def build_schema(names):
     from whoosh import fields
     sc = fields.Schema()
     for n in sorted(names):
-        sc.add(n, make_field(n))
+        if n in DYNAMIC:
+            sc.add(DYNAMIC[n], make_field(n), glob=True)
+        else:
+            sc.add(n, make_field(n))
     return sc
+
+
+def concrete_names(schema):
+    """explicit field names + the concrete names this module uses under a glob of the schema"""
+    names = list(schema.names())
+    return sorted(names + [n for n in DYNAMIC if n not in names and n in schema])
 
 
 def _full_schema():
@@ -72,7 +89,9 @@ def _full_schema():
 # world generation
 
 def gen_value(rng, name):
-    if name == "txt" or name == "vt" or name == "x2":
+    if name == "pc":
+        return rng.choice([0, 1, 7, -5, 100000])
+    if name == "txt" or name == "vt" or name == "x2" or name == "y_dyn":
         n = rng.choice([1, 1, 2, 3, 4, 6, 12, 40])
         return " ".join(rng.choice(WORDS[:5]) for _ in range(n))
     if name == "tag" or name == "x1":
@@ -100,14 +119,17 @@ def gen_world(rng, nsessions=None, maxops=None, disciplined=True, schema_changes
     if uniq is None:
         uniq = rng.choice([[], ["uk"], ["uk"], ["un"], ["uk", "un"]])
     optional = [f for f in ["txt", "tag", "vt", "num", "cat"] if rng.random() < 0.6]
+    # (after the others, so that they do not move the choices above) a pure column field; a dynamic (glob) field
+    late_optional = [f for f in ["pc", "y_dyn"] if rng.random() < 0.3]
     if not optional:
         optional = ["txt"]
-    fields0 = sorted(["sid"] + list(uniq) + optional)
+    fields0 = sorted(["sid"] + list(uniq) + optional + late_optional)
     cur_fields = list(fields0)
     extras_unused = ["x1", "x2"] if schema_changes else []
     nsessions = nsessions or rng.choice([1, 2, 3, 4, 5, 6, 8, 10])
     maxops = maxops or rng.choice([2, 4, 6, 9])
     nkeys = rng.choice([1, 2, 3, 5])
+    empty_key = rng.random() < 0.4
     docs = []
     sessions = []
     # generator-side bookkeeping (only to bias ops towards interesting ones)
@@ -123,7 +145,8 @@ def gen_world(rng, nsessions=None, maxops=None, disciplined=True, schema_changes
                 continue
             if name == "uk":
                 if use_key:
-                    d["f"]["uk"] = "k%d" % rng.randrange(nkeys)
+                    # the empty string is a legal key: an ID field indexes it as the ordinary term b""
+                    d["f"]["uk"] = "" if (empty_key and rng.random() < 0.3) else "k%d" % rng.randrange(nkeys)
                 continue
             if name == "un":
                 if use_key:
@@ -155,7 +178,7 @@ def gen_world(rng, nsessions=None, maxops=None, disciplined=True, schema_changes
                 ops.append(["addf", name])
                 cur_fields = sorted(cur_fields + [name])
             else:
-                removable = [f for f in cur_fields if f not in ("sid",) and (f not in fields0 or rng.random() < 0.5)]
+                removable = [f for f in cur_fields if f not in ("sid", "pc", "y_dyn") and (f not in fields0 or rng.random() < 0.5)]
                 if removable:
                     name = rng.choice(removable)
                     ops.append(["remf", name])
@@ -190,7 +213,7 @@ def gen_world(rng, nsessions=None, maxops=None, disciplined=True, schema_changes
                 if f == "sid":
                     text = "s%d" % rng.randrange(max(1, len(docs)))
                 elif f == "uk":
-                    text = "k%d" % rng.randrange(nkeys)
+                    text = "" if (empty_key and rng.random() < 0.3) else "k%d" % rng.randrange(nkeys)
                 else:
                     text = rng.choice(WORDS)
                 ops.append(["delterm", f, text])
@@ -370,6 +393,47 @@ def gen_refresh_world(rng):
         rng.shuffle(ops)
         sessions.append([ops, ["commit", rng.choice(["nomerge", "nomerge", "small"])]])
     return {"fields": ["sid", "txt"], "docs": docs, "sessions": sessions, "disciplined": False}
+
+
+def gen_purge_world(rng, ncuts=None):
+    """remove_field followed by an optimising commit that adds nothing, on an index of 1..3 segments with or
+    without a deletion; then the removed name is added again and new documents use it: optimize must have
+    dropped the old terms / stored values / lengths / columns / vectors of the field whatever the layout was.
+    Returns (world, index of the last initial session)."""
+    extra = [f for f in ["txt", "tag", "vt", "num", "cat", "x1", "x2"] if rng.random() < 0.5]
+    victim = rng.choice(["txt", "tag", "vt", "num", "cat", "x1", "x2"])
+    fields0 = sorted(set(["sid", victim] + extra))
+    docs = []
+
+    def doc(fields):
+        d = {"sid": len(docs), "f": {"sid": "s%d" % len(docs)}}
+        for name in fields:
+            if name != "sid" and (name == victim or rng.random() < 0.75):
+                d["f"][name] = gen_value(rng, name)
+        docs.append(d)
+        return d["sid"]
+
+    n = rng.choice([1, 2, 3, 5, 8])
+    adds = [["add", doc(fields0)] for _ in range(n)]
+    cuts = sorted(rng.sample(range(1, n), min(n - 1, ncuts if ncuts is not None else rng.choice([0, 0, 1, 2]))))
+    sessions, prev = [], 0
+    for c in cuts + [n]:
+        sessions.append([adds[prev:c], ["commit", "nomerge"]])
+        prev = c
+    ninit = len(sessions)
+    if rng.random() < 0.25 and n > 1:
+        sessions.append([[["delkey", rng.randrange(n)]], ["commit", "nomerge"]])
+    r = rng.random()
+    if r < 0.6:
+        sessions.append([[["remf", victim]], ["commit", "optimize"]])
+    elif r < 0.8:
+        sessions.append([[["remf", victim]], ["commit", rng.choice(["nomerge", "small"])]])
+        sessions.append([[], ["commit", "optimize"]])
+    else:
+        sessions.append([[["remf", victim], ["add", doc([f for f in fields0 if f != victim])]], ["commit", "optimize"]])
+    sessions.append([[["addf", victim]] + [["add", doc(fields0)] for _ in range(rng.choice([0, 1, 2]))],
+                     ["commit", rng.choice(["nomerge", "small", "optimize"])]])
+    return {"fields": fields0, "docs": docs, "sessions": sessions, "disciplined": True}, ninit
 
 
 def _ever_added(name, sessions):
@@ -673,7 +737,7 @@ def dump_reader(r, schema, probes=()):
     from whoosh.reading import TermNotFound
     out = {"doc_count": r.doc_count(), "doc_count_all": r.doc_count_all(),
            "has_deletions": bool(r.has_deletions())}
-    names = sorted(schema.names())
+    names = concrete_names(schema)
     sid_at = {}
     docs = {}
     live = list(r.all_doc_ids())
@@ -783,16 +847,23 @@ def dump_index(ix, probes=()):
         schema = ix.schema
         out = dump_reader(r, schema)
         layout = []
+        physical = []
         for lr, off in r.leaf_readers():
             seg = lr.segment() if hasattr(lr, "segment") else None
             keys = []
             pdr = getattr(lr, "_perdoc", None)
             if pdr is None:
                 continue
+            phys = set(lr.indexed_field_names())
             for dn in range(lr.doc_count_all()):
-                keys.append(_sid_of(pdr.stored_fields(dn)))
+                raw = pdr.stored_fields(dn)
+                phys.update(raw)
+                keys.append(_sid_of(raw))
+            physical.append(sorted(phys))
             layout.append((lr.doc_count_all(), sorted(seg.deleted_docs()) if seg is not None else [], keys))
         out["layout"] = layout
+        out["physical"] = physical          # per segment: field names with terms or stored values in the files
+        out["physical_unknown"] = [[n for n in phys if n not in schema] for phys in physical]
         out["nsegments"] = len(segs)
         out["ix_doc_count"] = ix.doc_count()
         out["ix_doc_count_all"] = ix.doc_count_all()
@@ -1306,6 +1377,81 @@ def make_writer(ix, cfg):
     raise ValueError(fe)
 
 
+def async_behind_writer_ok(session):
+    """a session whose calls mean the same whenever they are resolved: additions, updates, delete_by_term
+    (delete by number/query are resolved by the AsyncWriter against the index as it is at call time)"""
+    ops, end = session
+    return end[0] == "commit" and end[1] != "clear" and all(o[0] in ("add", "upd", "group", "delterm") for o in ops)
+
+
+def _run_async_behind_writer(st, world, cfg, si):
+    from whoosh.writing import AsyncWriter
+    (ops0, end0), (ops1, end1) = world["sessions"][si], world["sessions"][si + 1]
+    kw = writer_kwargs(cfg)
+    rec0 = {"concrete": [], "results": [], "end": end0 if end0[0] == "commit" else ["cancel"], "delkeys": []}
+    rec1 = {"concrete": [], "results": [], "end": end1, "delkeys": [], "async_buffered": True, "behind_writer": True}
+    holder = st.open_index().writer(**kw)                  # holds the write lock
+    try:
+        aw = AsyncWriter(st.open_index(), delay=0.005, writerargs=kw)
+        if aw.writer is not None:
+            raise RuntimeError("AsyncWriter obtained the lock although another writer holds it")
+        for op in ops1:
+            apply_op(aw, world, op, rec1["concrete"], rec1["results"], aw.searcher, rec1["delkeys"])
+        aw.commit(**commit_kwargs(end1[1]))                # starts the retry thread
+        for op in ops0:
+            apply_op(holder, world, op, rec0["concrete"], rec0["results"], holder.searcher, rec0["delkeys"])
+        if end0[0] == "commit":
+            holder.commit(**commit_kwargs(end0[1]))
+        else:
+            holder.cancel()
+        holder = None
+        aw.join(120)
+        if aw.is_alive():
+            raise RuntimeError("AsyncWriter thread did not finish")
+    finally:
+        if holder is not None:
+            holder.cancel()
+    return [rec0, rec1]
+
+
+def gen_async_world(rng):
+    """A deferred AsyncWriter behind a lock holder whose commit changes what the AsyncWriter's calls mean when
+    resolved too early: the holder adds documents carrying the term the AsyncWriter deletes by, and/or deletes and
+    merges (renumbering).  Sessions come in (holder, async) pairs after two or three committed segments."""
+    docs, sessions = [], []
+
+    def doc(tag=None, key=None):
+        d = {"sid": len(docs), "f": {"sid": "s%d" % len(docs), "txt": " ".join(rng.choice(WORDS[:4]) for _ in range(rng.choice([1, 2, 3])))}}
+        d["f"]["tag"] = tag if tag is not None else " ".join(rng.choice(WORDS[3:]) for _ in range(rng.choice([1, 2])))
+        if key is not None:
+            d["f"]["uk"] = key
+        docs.append(d)
+        return d["sid"]
+
+    uniq = rng.random() < 0.5
+    fields = sorted(["sid", "tag", "txt"] + (["uk"] if uniq else []))
+    for _ in range(rng.choice([2, 2, 3])):
+        sessions.append([[["upd" if uniq else "add", doc(key="k%d" % (len(docs) % 4) if uniq else None)]
+                          for _ in range(rng.choice([1, 2, 3, 4]))], ["commit", "nomerge"]])
+    for _ in range(rng.choice([1, 2])):
+        t = rng.choice(WORDS[3:])
+        hold = []
+        if rng.random() < 0.6 and docs:
+            hold.append(["delkey", rng.randrange(len(docs))])
+        if rng.random() < 0.8:
+            hold += [["add", doc(tag=t + (" " + rng.choice(WORDS[3:]) if rng.random() < 0.5 else ""))]
+                     for _ in range(rng.choice([1, 2]))]
+        sessions.append([hold, ["commit", rng.choice(["nomerge", "small", "optimize", "optimize"])] if rng.random() < 0.9
+                         else ["cancel"]])
+        later = [["delterm", "tag", t]]
+        if rng.random() < 0.7:
+            later.append(["upd" if uniq else "add", doc(key="k%d" % rng.randrange(4) if uniq else None)])
+        if rng.random() < 0.3:
+            later.insert(0, ["delterm", "txt", rng.choice(WORDS[:4])])
+        sessions.append([later, ["commit", rng.choice(["nomerge", "small", "optimize"])]])
+    return {"fields": fields, "docs": docs, "sessions": sessions, "disciplined": True}
+
+
 def run_frontend(world, cfg, path, probes=(), dump_at=None, async_decoy=None):
     """Like run_real, one writer of the configured front-end per session.
     async_decoy: list of booleans (per session) — hold the write lock while the AsyncWriter is used."""
@@ -1314,12 +1460,26 @@ def run_frontend(world, cfg, path, probes=(), dump_at=None, async_decoy=None):
     ix = st.create_index(build_schema(world["fields"]))
     out = []
     fe = cfg.get("frontend", "plain")
+    skip = False
     for si, (ops, end) in enumerate(world["sessions"]):
+        if skip:
+            skip = False
+            continue
+        if (fe == "async" and async_decoy and async_decoy[si % len(async_decoy)] == "writer" and cfg["storage"] == "file"
+                and si + 1 < len(world["sessions"]) and async_behind_writer_ok(world["sessions"][si + 1])):
+            # session si is performed by a plain writer that holds the lock while session si + 1 is handed to a
+            # deferred AsyncWriter; the AsyncWriter's calls must take effect after the lock holder's commit
+            out.extend(_run_async_behind_writer(st, world, cfg, si))
+            if dump_at is None or si + 1 in dump_at:
+                out[-1]["dump"] = dump_index(st.open_index(), probes)
+            skip = True
+            continue
         concrete, results, delkeys = [], [], []
         rec = {"concrete": concrete, "results": results, "end": end, "delkeys": delkeys}
         ix = st.open_index()
         decoy = None
-        if fe == "async" and async_decoy and async_decoy[si % len(async_decoy)] and cfg["storage"] == "file":
+        if (fe == "async" and async_decoy and async_decoy[si % len(async_decoy)] in ("late", "early", True)
+                and cfg["storage"] == "file"):
             # (on RamStorage a second writer blocks for ever instead of raising LockError: C04)
             decoy = ix.lock("WRITELOCK")
             if not decoy.acquire():
@@ -1329,6 +1489,12 @@ def run_frontend(world, cfg, path, probes=(), dump_at=None, async_decoy=None):
         rec["async_buffered"] = buffered_async
 
         mode = async_decoy[si % len(async_decoy)] if (fe == "async" and async_decoy) else False
+        if mode == "writer":
+            mode = "late"
+            if cfg["storage"] == "file":
+                decoy = ix.lock("WRITELOCK")
+                if not decoy.acquire():
+                    decoy = None
         released = [False]
 
         def release_early():
@@ -1380,6 +1546,52 @@ def run_frontend(world, cfg, path, probes=(), dump_at=None, async_decoy=None):
     return {"sessions": out}
 
 
+EXPANSION_BOUNDS = {"txt": ["a", "aa", "bb", "cc", "ee"], "tag": ["d", "dd", "ee", "gg"], "x1": ["dd", "ff"],
+                    "x2": ["aa", "cc"], "uk": ["", "k", "k0", "k1", "k2"], "sid": ["s", "s1", "s2"], "vt": ["aa", "dd"]}
+
+
+def expansion_probes(s, fieldnames):
+    """Term expansions that start at a bound (Prefix, open/closed TermRange, Wildcard with a literal prefix,
+    reader.expand_prefix / terms_from) through searcher `s`: {(kind, field, bound): sorted keys | term bytes}."""
+    from whoosh import query
+    out = {}
+    r = s.reader()
+    for f in sorted(fieldnames):
+        for b in EXPANSION_BOUNDS.get(f, ()):
+            try:
+                for kind, q in (("prefix", query.Prefix(f, b)), ("range", query.TermRange(f, b, None)),
+                                ("range1", query.TermRange(f, b, b)), ("wild", query.Wildcard(f, b + "*"))):
+                    if kind == "wild" and b == "":
+                        continue
+                    out[(kind, f, b)] = sorted(_sid_of(s.stored_fields(dn)) for dn in s.docs_for_query(q))
+            except Exception as e:  # noqa
+                out[("raised", f, b)] = "%s: %s" % (type(e).__name__, e)
+            try:
+                out[("expand_prefix", f, b)] = list(r.expand_prefix(f, b))
+                tf = []
+                for fn, t in r.terms_from(f, b):
+                    if fn != f or len(tf) >= 40:
+                        break
+                    tf.append(t)
+                out[("terms_from", f, b)] = tf
+            except Exception as e:  # noqa
+                out[("walk-raised", f, b)] = "%s: %s" % (type(e).__name__, e)
+    return out
+
+
+def expected_expansion(tables, content, kind, f, b):
+    """keys of the documents of `content` with a term of field f in the expansion (kind, bound b)"""
+    bb = b.encode("utf8")
+    test = {"prefix": lambda t: t.startswith(bb), "wild": lambda t: t.startswith(bb), "range": lambda t: t >= bb,
+            "range1": lambda t: t == bb}[kind]
+    hits = []
+    for key, fids in content:
+        fr = tables.recs[key].get(f)
+        if fr is not None and FID[f] in fids and any(test(tb) for tb, _, _ in fr["toks"]):
+            hits.append(key)
+    return sorted(hits)
+
+
 def run_buffered(world, cfg, path, probes=()):
     """The whole op list through one BufferedWriter (flat semantics: every call sees committed +
     buffered documents).  After every op the writer's own searcher is probed.
@@ -1404,8 +1616,9 @@ def run_buffered(world, cfg, path, probes=()):
                     sids = sorted(_sid_of(r.stored_fields(dn)) for dn in r.all_doc_ids())
                     cnt = r.doc_count()
                     hits = sorted(_sid_of(s.stored_fields(dn)) for dn in s.docs_for_query(to_whoosh_query(["every"])))
+                    expn = expansion_probes(s, world["fields"])
                 steps.append({"op": op, "concrete": list(concrete), "raw": raw, "results": list(results), "sids": sids,
-                              "doc_count": cnt, "every": hits})
+                              "doc_count": cnt, "every": hits, "expansions": expn})
             if end[0] == "commit":
                 bw.commit()
                 with bw.searcher() as s:
